@@ -75,6 +75,7 @@ type lpFaults struct {
 	ctorPanic     models.ShardID // Shard.IndexDB panics: in the operator constructor called from shardScanStage.Plan()
 	metaErr       bool           // the metadata database's Suggest*/GetSchema calls return an (injected) I/O error
 	metaPanic     bool           // … panic
+	collectErr    bool           // MetricMetaDatabase.CollectTagValues (the group-by tag value collect after the last grouping task) fails
 }
 
 type lpFaultBox struct {
@@ -154,6 +155,13 @@ func (m *lpMetaDB) SuggestTagValues(id tag.KeyID, prefix string, limit int) ([]s
 		return nil, err
 	}
 	return m.MetricMetaDatabase.SuggestTagValues(id, prefix, limit)
+}
+
+func (m *lpMetaDB) CollectTagValues(id tag.KeyID, ids *roaring.Bitmap, out map[uint32]string) error {
+	if m.f.get().collectErr {
+		return fmt.Errorf("CollectTagValues: %w", errInjectedIO)
+	}
+	return m.MetricMetaDatabase.CollectTagValues(id, ids, out)
 }
 
 func (m *lpMetaDB) GetSchema(id metric.ID) (*metric.Schema, error) {
@@ -421,6 +429,7 @@ type lpScenario struct {
 	tagKey    string
 	tolerated bool // the stage fails with a not-found error, which the suggest callback answers as an empty result
 	badType   bool // a request type the leaf processor does not dispatch (Process's default branch)
+	collect   bool // the group-by tag value collect fails and answers the request itself
 }
 
 // the healthy stage structure of a shard with data: shard scan -> grouping -> data load
@@ -445,6 +454,12 @@ func lpScenarios() []lpScenario {
 		{name: "unreadable-plan", tree: "-", wantErr: true, metric: lpMetric, field: lpField, badPlan: true},
 		{name: "unreadable-statement", tree: "-", wantErr: true, metric: lpMetric, field: lpField, shards: []models.ShardID{1}, badStmt: true},
 		{name: "not-a-leaf-of-the-plan", tree: "-", wantErr: true, metric: lpMetric, field: lpField, shards: []models.ShardID{1}, notLeaf: true},
+		// group by: after the last grouping task LeafGroupingContext.collectGroupByTagValues reads the tag
+		// values; when that fails IT answers the request (through the guarded SendResponse), before the
+		// pipeline's completion callback
+		{name: "group-by-collect-tag-values-error", tree: "So(" + lpShardOK + "," + lpShardOK + ")", collect: true, wantErr: true, metric: lpMetric, field: lpField, groupBy: true, shards: []models.ShardID{1, 2}, faults: lpFaults{collectErr: true}},
+		{name: "group-by-collect-error-and-shard-over-limit", tree: "So(Ae," + lpShardOK + ")", collect: true, wantErr: true, metric: lpMetric, field: lpField, groupBy: true, shards: []models.ShardID{1, 2}, faults: lpFaults{collectErr: true}, maxSeries: 2},
+		{name: "group-by-collect-error-and-operator-panic", tree: "So(Ap," + lpShardOK + ")", collect: true, wantErr: true, metric: lpMetric, field: lpField, groupBy: true, shards: []models.ShardID{1, 2}, faults: lpFaults{collectErr: true, execPanic: 1}},
 		// metadata suggest: every stage runs inline on the task's goroutine
 		{name: "suggest-namespaces", tree: "So", meta: stmt.Namespace},
 		{name: "suggest-metrics", tree: "So", meta: stmt.Metric, prefix: "c"},
@@ -623,6 +638,8 @@ func (leafArea) Run(c *core.Ctx) error {
 		out := fmt.Sprintf("responses=%d resp=%s", len(rs), resp)
 		kind := "data"
 		switch {
+		case sc.collect:
+			kind = "data-collect-fails"
 		case sc.meta != 0 && sc.tolerated:
 			kind = "meta-notfound"
 		case sc.meta != 0:
